@@ -14,6 +14,7 @@ def run(prop, tier, seed, t0):
     R.run_sharded(res, exes[1], [], npl, label='h_c08/plain', variant='plain', first=na)
     nvg = core.valgrind_stage(R, res, HARNESSES['h_c08/val'], [], 1600 if thorough else 48, na + npl)
     cov = {
+        'prefix_single_use_checks(ST and MT)': res.stat('prefix_single_use_checks'),
         'dictionaries_under_valgrind_memcheck': nvg, 'evaluations': res.stat('roundtrips') + res.stat('wrong_id_checks') + res.stat('dictionaries'), 'distinct_nontrivial': res.ncells('modes') + res.ncells('dict_class') + res.ncells('unusual'),
         'rule': 'dictionaries: raw content 0 B..1 MiB (incl. < 8 bytes, accidental magic), ZDICT-trained, golden dictionaries of the repo (missing symbols, zero weights), structurally valid UNUSUAL dictionaries assembled from generator-chosen normalised counts (absent symbols, less-than-one probabilities, table logs 5..9, truncated alphabets), Huffman tables with up to 2/3 zero counts and odd repeat offsets, serialised with the tree\'s own writers and kept only if both loaders accept, and mutated bytes behind the magic (memory safety only); '
                 'x compression modes {usingDict, CDict byCopy/byRef (+dedicated dict search), loadDictionary, refCDict, refPrefix} x attach prefs 0..3 x levels -2..19 x inputs (dictionary tail replay, dictionary content, high-byte alphabet, random families) x 6 decode modes + R parsing the dictionary itself + wrong-ID / no-dictionary refusal. distinct non-trivial = (cmode, dmode) pairs + dictionary class/loader outcome cells + unusual-table feature cells',
